@@ -217,12 +217,12 @@ Proof.
                 latest x = latest s -> rs_last x = rs_last s -> published x = published s -> rd_done x = rd_done s -> queue x = queue s ->
                 app x = app s -> applied x = applied s -> snapi x = snapi s -> sns x = sns s -> ckp x = ckp s -> pg_snap x = pg_snap s ->
                 nrel x = nrel s -> snapfiles x = snapfiles s -> ckpts x = ckpts s -> engine x = engine s -> proposed x = proposed s ->
-                pg_wal x = pg_wal s -> rdp x = RdBegun r true pb ->
+                pg_wal x = pg_wal s -> cache x = cache s -> restoring x = restoring s -> rdp x = RdBegun r true pb ->
                 (if running x then VInv c x hi else RInv x)).
-      { intros x X1 X2 X3 X4 X5 X6 X7 X8 X9 X10 X11 X12 X13 X14 X15 X16 X17 X18 X19 X20 X21 X23 X22.
+      { intros x X1 X2 X3 X4 X5 X6 X7 X8 X9 X10 X11 X12 X13 X14 X15 X16 X17 X18 X19 X20 X21 X23 X24 X25 X22.
         unfold running. rewrite X2, R.
-        destruct HV. constructor; rewrite ?X1, ?X3, ?X4, ?X5, ?X6, ?X7, ?X8, ?X9, ?X10, ?X11, ?X12, ?X13, ?X14, ?X15, ?X16, ?X17, ?X18, ?X19, ?X20, ?X21, ?X23; auto.
-        unfold rd_inv. rewrite X22, X1, X8. unfold rlast in *. rewrite X7, X21. unfold pubcl in *. rewrite X8. clear X1 X2 X3 X4 X5 X6 X7 X8 X9 X10 X11 X12 X13 X14 X15 X16 X17 X18 X19 X20 X21 X22 X23.
+        destruct HV. constructor; rewrite ?X1, ?X3, ?X4, ?X5, ?X6, ?X7, ?X8, ?X9, ?X10, ?X11, ?X12, ?X13, ?X14, ?X15, ?X16, ?X17, ?X18, ?X19, ?X20, ?X21, ?X23, ?X24, ?X25; auto.
+        unfold rd_inv. rewrite X22, X1, X8. unfold rlast in *. rewrite X7, X21. unfold pubcl in *. rewrite X8. clear X1 X2 X3 X4 X5 X6 X7 X8 X9 X10 X11 X12 X13 X14 X15 X16 X17 X18 X19 X20 X21 X22 X23 X24 X25.
         split; [exact F|]. split; [split; assumption|]. split.
         - destruct pb; [|tauto]. destruct (0 <? r_cn r) eqn:Qc; [rewrite Pp; apply Sc; lia | exact Pp].
         - exact Pp. }
@@ -250,14 +250,14 @@ Proof.
                 latest x = latest s -> rs_last x = rs_last s -> published x = published s -> rd_done x = rd_done s -> queue x = queue s ->
                 app x = app s -> applied x = applied s -> snapi x = snapi s -> sns x = sns s -> ckp x = ckp s -> pg_snap x = pg_snap s ->
                 nrel x = nrel s -> snapfiles x = snapfiles s -> ckpts x = ckpts s -> engine x = engine s -> proposed x = proposed s ->
-                pg_wal x = pg_wal s -> rdp x = RdBegun r true pb ->
+                pg_wal x = pg_wal s -> cache x = cache s -> restoring x = restoring s -> rdp x = RdBegun r true pb ->
                 (if running x then VInv c x (rlast s r) else RInv x)).
-      { intros x X1 X2 X3 X4 X5 X6 X7 X8 X9 X10 X11 X12 X13 X14 X15 X16 X17 X18 X19 X20 X21 X23 X22.
+      { intros x X1 X2 X3 X4 X5 X6 X7 X8 X9 X10 X11 X12 X13 X14 X15 X16 X17 X18 X19 X20 X21 X23 X24 X25 X22.
         unfold running. rewrite X2, R.
-        destruct HV. constructor; rewrite ?X1, ?X3, ?X4, ?X5, ?X6, ?X7, ?X8, ?X9, ?X10, ?X11, ?X12, ?X13, ?X14, ?X15, ?X16, ?X17, ?X18, ?X19, ?X20, ?X21, ?X23;
+        destruct HV. constructor; rewrite ?X1, ?X3, ?X4, ?X5, ?X6, ?X7, ?X8, ?X9, ?X10, ?X11, ?X12, ?X13, ?X14, ?X15, ?X16, ?X17, ?X18, ?X19, ?X20, ?X21, ?X23, ?X24, ?X25;
           rewrite ?save_newest, ?save_markers, ?app_tail_length, ?nth_sfirst_app_tail by auto; auto;
           try (unfold rd_inv; rewrite X22, X1, X8; unfold rlast in *; rewrite X7, X21; rewrite Hlc'; unfold pubcl in *; rewrite X8);
-          clear X1 X2 X3 X4 X5 X6 X7 X8 X9 X10 X11 X12 X13 X14 X15 X16 X17 X18 X19 X20 X21 X22 X23.
+          clear X1 X2 X3 X4 X5 X6 X7 X8 X9 X10 X11 X12 X13 X14 X15 X16 X17 X18 X19 X20 X21 X22 X23 X24 X25.
         - 
           split; [split; assumption|]. split; [split|].
           + reflexivity.
@@ -396,7 +396,7 @@ Proof.
   intros c s s' a sn HI H. start_step H hi HP HV; norm_guards;
   (exists hi; split; [pframe s|];
    unfold running in *; proj; destruct (rc s) eqn:R; try (not_running HV);
-   vinv_split HV; rewrite E in v_app; exact v_app).
+   vinv_split HV; rewrite E in v_app; first [exact v_app | destruct v_app; assumption]).
 Qed.
 
 (* ---------- the backup loop (checkpoints) ---------- *)
@@ -407,12 +407,29 @@ Proof. reflexivity. Qed.
 Lemma lookup_set_ne : forall j i v cks, j <> i -> lookup j ((i, v) :: remove_ckpt i cks) = lookup j cks.
 Proof. intros. rewrite lookup_cons. destruct (j =? i) eqn:Q; [lia|]. apply lookup_remove_ckpt_ne. exact H. Qed.
 
-Lemma step_ck_save_before : forall c s s', Inv c s -> step c s EvCkSaveBefore = Ok s' -> Inv c s'.
+Lemma filter_not_in_nil : forall l : list N, filter (fun i => negb (memN i [])) l = l.
+Proof. induction l; simpl; auto. f_equal. exact IHl. Qed.
+
+Lemma step_ck_flush : forall c s s', Inv c s -> step c s EvCkFlush = Ok s' -> Inv c s'.
 Proof.
-  intros c s s' HI H. start_step H hi HP HV. norm_guards.
+  intros c s s' HI H. start_step H hi HP HV; norm_guards;
+  (exists hi; split; [pframe s|]; unfold running, RInv in *; proj; destruct (rc s) eqn:R; try exact HV;
+   try (exfalso; destruct HV as [_ [_ [Hap _]]]; congruence)).
+  all: vinv_split HV; rewrite ?E; rewrite E in v_app; try exact v_app; try (split; [exact v_app | reflexivity]);
+       try (destruct v_app; split; [assumption | reflexivity]).
+Qed.
+
+Lemma step_ck_save_before : forall c s s', fixed c -> Inv c s -> step c s EvCkSaveBefore = Ok s' -> Inv c s'.
+Proof.
+  intros c s s' [_ [_ Hfl]] HI H. start_step H hi HP HV. norm_guards.
+  match goal with G : _ && _ = true |- _ => apply andb_true_iff in G; destruct G as [Gapp Glt] end.
+  rewrite Hfl in Gapp. simpl in Gapp.
+  destruct (app s) eqn:Eapp; try discriminate.
   unfold running in *. proj. destruct (rc s) eqn:R; try (not_running HV).
   pose proof HV as HV0. destruct HV0 as [_ _ _ _ _ _ _ _ v_app v_engine v_snapi v_sns _ _ _ _].
+  rewrite Eapp in v_app. destruct v_app as [Aap Acache].
   assert (Hnn : newest (segs s) < applied s) by lia.
+  rewrite Acache, filter_not_in_nil.
   exists hi. split.
   - apply (pinv_files s); try reflexivity; auto; proj; try (destruct HP; assumption).
     + intros Hp. destruct (p_file _ _ HP Hp) as [A B]. split; [exact A|].
@@ -422,7 +439,7 @@ Proof.
       * rewrite lookup_remove_ckpt_ne in Hl by exact Hne. eapply p_ckpts; eauto.
   - unfold running. proj. rewrite R. vinv_split HV.
     + destruct v_latest as [L1 L2]. split; [exact L1 | intros; discriminate].
-    + rewrite E in v_app. split; [reflexivity|]. split; [exact v_app | lia].
+    + split; [reflexivity|]. split; [exact Aap | lia].
     + intros i p Hl. destruct (v_sns i p Hl) as [S1 [S2 [S3 [S4 [S5 [S6 S7]]]]]].
       repeat split; auto. intros Hn Hp. rewrite lookup_remove_ckpt_ne by lia. auto.
     + split; [apply v_engine; assumption|]. split; [exact Hnn|]. split.
